@@ -9,8 +9,8 @@
 package dvsim
 
 import (
-	"runtime"
 	"fmt"
+	"runtime"
 	"sort"
 	"strings"
 	"sync"
@@ -44,7 +44,10 @@ type Config struct {
 }
 
 type Op struct {
-	Op     string `json:"op"` // tick deadcheck deliver drop dup advance linkdown linkup crash restart announce withdraw reface mgmtfail settle
+	Op string `json:"op"` // tick deadcheck deliver drop dup advance linkdown linkup crash restart announce withdraw reface mgmtfail hold release settle
+	// hold / release: the table-update goroutines of router R that reach the named point ("rib-update", "fib-update")
+	// wait there until released - the scheduler's choice of when a spawned goroutine runs
+	Point  string `json:"point,omitempty"`
 	R      int    `json:"r,omitempty"`
 	A      int    `json:"a,omitempty"`
 	B      int    `json:"b,omitempty"`
@@ -173,6 +176,17 @@ func (Engine) Generate(prop string, r *kit.Rand, tier string) *kit.Scenario[Conf
 			add(1, mid)
 		}
 	}
+	// C18: rings (every destination has two disjoint paths, and losing one link re-routes half of them the long way)
+	ring := prop == "C18" && c.N >= 4 && !multipath && r.Chance(0.2)
+	if ring {
+		c.Links = nil
+		for k := range has {
+			delete(has, k)
+		}
+		for i := 0; i < c.N; i++ {
+			add(i, (i+1)%c.N)
+		}
+	}
 	c.AdvertMs = kit.Pick(r, []int{1000, 2000, 5000})
 	c.DeadMs = c.AdvertMs * kit.Pick(r, []int{2, 3, 6})
 	if prop == "C19" && r.Chance(0.3) && c.N > 2 {
@@ -186,6 +200,11 @@ func (Engine) Generate(prop string, r *kit.Rand, tier string) *kit.Scenario[Conf
 	if prop == "C19" {
 		wPfx, wReface, wMgmt = 12, 2, 2
 	}
+	wHold := 3
+	if prop == "C04" {
+		wHold = 0
+	}
+	held := map[string]bool{}
 	if prop == "C04" {
 		// a hostile or faulty link: routing, prefix-sync and advertisement packets are corrupted in transit
 		wPfx, wCorrupt, wCrash, wLink = 10, 25, 1, 2
@@ -194,6 +213,20 @@ func (Engine) Generate(prop string, r *kit.Rand, tier string) *kit.Scenario[Conf
 	crashed := map[int]bool{}
 	for _, l := range c.Late {
 		crashed[l] = true
+	}
+	// C18: often let the network converge first, then change the topology (a neighbour's advertisement then changes
+	// in next hop or second-best cost only, for some destinations)
+	if prop == "C18" && (ring || r.Chance(0.25)) {
+		for round := 0; round < 4; round++ {
+			for x := 0; x < c.N; x++ {
+				sc.Ops = append(sc.Ops, Op{Op: "tick", R: x})
+			}
+			for d := 0; d < 8*c.N; d++ {
+				sc.Ops = append(sc.Ops, Op{Op: "deliver", K: 0})
+			}
+			sc.Ops = append(sc.Ops, Op{Op: "advance", Ms: 100})
+		}
+		wLink = 10
 	}
 	// C19: often make one prefix multi-homed early on, then let the network learn about it
 	if prop == "C19" && c.N >= 3 && r.Chance(0.5) {
@@ -260,7 +293,26 @@ func (Engine) Generate(prop string, r *kit.Rand, tier string) *kit.Scenario[Conf
 		nops = r.Range(0, 12)
 	}
 	for i := 0; i < nops; i++ {
-		switch r.Weighted([]int{wTick, wDeliver, wDrop, wDup, wAdv, wLink, wCrash, wPfx, wReface, wDead, wMgmt, wCorrupt}) {
+		switch r.Weighted([]int{wTick, wDeliver, wDrop, wDup, wAdv, wLink, wCrash, wPfx, wReface, wDead, wMgmt, wCorrupt, wHold}) {
+		case 12:
+			x, pt := r.Intn(c.N), kit.Pick(r, []string{"rib-update", "rib-update", "fib-update"})
+			k := fmt.Sprintf("%d|%s", x, pt)
+			if held[k] {
+				delete(held, k)
+				sc.Ops = append(sc.Ops, Op{Op: "release", R: x, Point: pt})
+			} else {
+				held[k] = true
+				sc.Ops = append(sc.Ops, Op{Op: "hold", R: x, Point: pt})
+				// typically: something arrives while held, then the neighbour is declared dead, then the release
+				if r.Chance(0.5) {
+					sc.Ops = append(sc.Ops, Op{Op: "deliver", K: r.Intn(4)}, Op{Op: "deliver", K: r.Intn(4)}, Op{Op: "deliver", K: r.Intn(4)})
+					if r.Chance(0.6) {
+						sc.Ops = append(sc.Ops, Op{Op: "advance", Ms: c.DeadMs + 500}, Op{Op: "deadcheck", R: x})
+					}
+					delete(held, k)
+					sc.Ops = append(sc.Ops, Op{Op: "release", R: x, Point: pt})
+				}
+			}
 		case 11:
 			o := Op{Op: "corrupt", K: r.Intn(16)}
 			huge := []uint64{0, 1, 2, 127, 252, 253, 254, 255, 256, 65535, 65536, 1 << 31, 1<<32 - 1, 1 << 32, 1<<63 - 1, 1 << 63, 1<<64 - 1}
@@ -319,7 +371,24 @@ func (Engine) Generate(prop string, r *kit.Rand, tier string) *kit.Scenario[Conf
 		case 9:
 			sc.Ops = append(sc.Ops, Op{Op: "deadcheck", R: r.Intn(c.N)})
 		case 10:
-			sc.Ops = append(sc.Ops, Op{Op: "mgmtfail", R: r.Intn(c.N), K: r.Range(1, 2)})
+			x := r.Intn(c.N)
+			sc.Ops = append(sc.Ops, Op{Op: "mgmtfail", R: x, K: r.Range(1, 2)})
+			if r.Chance(0.5) && len(c.Links) > 0 {
+				// ... right before that router's routes change twice in a row (commands queue up behind the failing one)
+				var mine [][2]int
+				for _, l := range c.Links {
+					if l[0] == x || l[1] == x {
+						mine = append(mine, l)
+					}
+				}
+				if len(mine) > 0 {
+					l := kit.Pick(r, mine)
+					sc.Ops = append(sc.Ops, Op{Op: "reface", A: l[0], B: l[1]}, Op{Op: "tick", R: l[0]}, Op{Op: "tick", R: l[1]},
+						Op{Op: "deliver", K: 0}, Op{Op: "deliver", K: 0}, Op{Op: "deliver", K: 0}, Op{Op: "deliver", K: 0},
+						Op{Op: "reface", A: l[0], B: l[1]}, Op{Op: "tick", R: l[0]}, Op{Op: "tick", R: l[1]},
+						Op{Op: "deliver", K: 0}, Op{Op: "deliver", K: 0}, Op{Op: "deliver", K: 0}, Op{Op: "deliver", K: 0})
+				}
+			}
 		}
 	}
 	// late joiners come up, then faults stop
@@ -458,57 +527,60 @@ type routeKey struct {
 }
 
 type node struct {
-	id       int
-	name     enc.Name
-	alive    bool
-	face     *simFace
-	router   *dv.Router
-	routes   map[routeKey]uint64 // reference route table replayed from the command stream
-	mgmtFail int                 // next n management commands are answered with an error
-	lastFail time.Duration
+	id         int
+	name       enc.Name
+	alive      bool
+	face       *simFace
+	router     *dv.Router
+	routes     map[routeKey]uint64 // reference route table replayed from the command stream
+	mgmtFail   int                 // next n management commands are answered with an error
+	lastFail   time.Duration
 	failStreak int
-	incarn   int
+	incarn     int
 	// prefix log of this router as the harness knows it: seq -> announced set after that op
-	hist     map[uint64]map[string]bool
+	hist      map[uint64]map[string]bool
 	announced map[string]bool
-	lastSeq  uint64
+	lastSeq   uint64
 }
 
 type message struct {
-	key   string
-	seq   int
-	kind  string // sync advreq advdata pfxreq pfxdata pfxsync
-	src   int
-	dst   int
-	frame []byte
-	node  enc.Name // pfxsync
-	high  uint64
+	key       string
+	seq       int
+	kind      string // sync advreq advdata pfxreq pfxdata pfxsync
+	src       int
+	dst       int
+	frame     []byte
+	node      enc.Name // pfxsync
+	high      uint64
 	incarnDst int
 	corrupted bool
 }
 
 type world struct {
+	gmu              sync.Mutex
+	gates            map[string]chan struct{}
+	gateWaits        int
 	corruptDelivered int
-	ctx     *kit.Ctx
-	sc      *kit.Scenario[Config, Op]
-	res     *kit.Result
-	nodes   []*node
-	linkUp  map[[2]int]bool
-	everLink map[[2]int]bool
-	faceOf  map[[2]int]uint64 // (at, towards) -> face id
-	inflight []*message
-	mseq    int
-	pending map[string]map[int]bool // Interest name -> requesters awaiting Data
-	step    int
-	start   time.Time
-	deliveries int
-	notified map[string]uint64 // "dst|owner" -> highest sequence the hub has told dst about
-	maxAdvRounds int
-	signer  ndn.Signer
-	zombies []*dv.Router
-	zfaces  []*simFace
-	parent  *world            // set for the reference world built at the fixed point (C18 tie-break check)
-	finalNH map[string]string // "router>dest" -> next hop at the fixed point
+	ctx              *kit.Ctx
+	sc               *kit.Scenario[Config, Op]
+	res              *kit.Result
+	nodes            []*node
+	linkUp           map[[2]int]bool
+	everLink         map[[2]int]bool
+	faceOf           map[[2]int]uint64 // (at, towards) -> face id
+	inflight         []*message
+	mseq             int
+	pending          map[string]map[int]bool // Interest name -> requesters awaiting Data
+	step             int
+	start            time.Time
+	deliveries       int
+	notified         map[string]uint64 // "dst|owner" -> highest sequence the hub has told dst about
+	maxAdvRounds     int
+	signer           ndn.Signer
+	zombies          []*dv.Router
+	zfaces           []*simFace
+	parent           *world            // set for the reference world built at the fixed point (C18 tie-break check)
+	finalNH          map[string]string // "router>dest" -> next hop at the fixed point
 }
 
 func rname(i int) string { return fmt.Sprintf("/ndn/r%d", i) }
@@ -540,6 +612,45 @@ func (w *world) fail(class, key, format string, a ...any) {
 }
 
 func (w *world) now() time.Duration { return time.Since(w.start) }
+
+// releaseGate lets the goroutines waiting at one gate (or, with key "", at every gate) continue.
+func (w *world) releaseGate(key string) {
+	w.gmu.Lock()
+	defer w.gmu.Unlock()
+	for k, ch := range w.gates {
+		if key == "" || k == key || strings.HasPrefix(k, key) {
+			close(ch)
+			delete(w.gates, k)
+		}
+	}
+}
+
+// gateHeld: some table-update goroutine of this router is being held back by the scenario (or may be: a gate is
+// closed), so its installed routes legitimately lag behind its tables.
+func (w *world) gateHeld(n *node) bool {
+	w.gmu.Lock()
+	defer w.gmu.Unlock()
+	for k := range w.gates {
+		if strings.HasPrefix(k, n.name.String()+"|") {
+			return true
+		}
+	}
+	return false
+}
+
+func (w *world) installGate() {
+	dv.VerifGate = func(router enc.Name, point string) {
+		w.gmu.Lock()
+		ch := w.gates[router.String()+"|"+point]
+		if ch != nil {
+			w.gateWaits++
+		}
+		w.gmu.Unlock()
+		if ch != nil {
+			<-ch
+		}
+	}
+}
 
 func (w *world) startNode(n *node) {
 	if n.face != nil {
@@ -597,6 +708,7 @@ func (w *world) stopNode(n *node) {
 		// that its management client drains its queue and can be stopped.
 		// The process is really stopped at the end of the run (see windDown).
 		n.alive = false
+		w.releaseGate(n.name.String() + "|")
 		w.zombies = append(w.zombies, n.router)
 		w.pump(2 * time.Millisecond)
 	}
@@ -966,14 +1078,24 @@ func (e Engine) Run(t *testing.T, ctx *kit.Ctx, sc *kit.Scenario[Config, Op]) *k
 	var pan any
 	var site string
 	synctest.Test(t, func(t *testing.T) {
-		defer func() {
-			if p := recover(); p != nil {
-				pan, site = p, kit.PanicSite()
-			}
-		}()
 		w := &world{ctx: ctx, sc: sc, res: res, linkUp: map[[2]int]bool{}, everLink: map[[2]int]bool{}, faceOf: map[[2]int]uint64{},
 			pending: map[string]map[int]bool{}, notified: map[string]uint64{}, signer: sec.NewSha256Signer()}
-		w.run()
+		func() {
+			defer func() {
+				if p := recover(); p != nil {
+					pan, site = p, kit.PanicSite()
+				}
+			}()
+			w.run()
+		}()
+		if pan != nil {
+			// a panic in the code under test unwound the harness goroutine: the routers' goroutines must still
+			// be wound down, or the bubble cannot close
+			func() {
+				defer func() { recover() }()
+				w.windDown()
+			}()
+		}
 	})
 	if pan != nil {
 		if strings.HasPrefix(site, "harness:") || strings.Contains(fmt.Sprint(pan), "deadlock") {
@@ -990,6 +1112,10 @@ func (e Engine) Run(t *testing.T, ctx *kit.Ctx, sc *kit.Scenario[Config, Op]) *k
 
 func (w *world) run() {
 	w.start = time.Now()
+	if w.gates == nil {
+		w.gates = map[string]chan struct{}{}
+	}
+	w.installGate()
 	c := w.sc.Config
 	late := map[int]bool{}
 	for _, l := range c.Late {
@@ -1049,6 +1175,17 @@ func (w *world) run() {
 					w.deliver(m)
 				}
 			}
+		case "hold":
+			w.gmu.Lock()
+			k := fmt.Sprintf("%s|%s", w.nodes[o.R%c.N].name, o.Point)
+			if w.gates[k] == nil {
+				w.gates[k] = make(chan struct{})
+				w.ctx.Fault("goroutine-held-at-" + o.Point)
+			}
+			w.gmu.Unlock()
+		case "release":
+			w.releaseGate(fmt.Sprintf("%s|%s", w.nodes[o.R%c.N].name, o.Point))
+			w.pump(2 * time.Millisecond)
 		case "corrupt":
 			w.sortInflight()
 			if len(w.inflight) > 0 {
@@ -1166,6 +1303,7 @@ func (w *world) run() {
 
 // windDown ends every goroutine of every router ever started (time stops when the bubble's root returns).
 func (w *world) windDown() {
+	w.releaseGate("")
 	for _, n := range w.nodes {
 		w.stopNode(n)
 	}
@@ -1276,7 +1414,7 @@ func (w *world) checkSafety() {
 				w.fail("C18/cost-below-hop-distance", "", "router %d holds cost %d to %s; no walk that short exists over links that ever existed (distance %v)", n.id, e.Cost1, e.Dest, union[d])
 			}
 		}
-		if w.sc.Property == "C19" && n.router.VerifMgmtQueueLen() == 0 && n.mgmtFail == 0 && (n.lastFail == 0 || w.now() > n.lastFail+600*time.Millisecond) {
+		if w.sc.Property == "C19" && n.router.VerifMgmtQueueLen() == 0 && n.mgmtFail == 0 && (n.lastFail == 0 || w.now() > n.lastFail+600*time.Millisecond) && !w.gateHeld(n) {
 			w.checkInstalledRoutes(n, rib, nbrs, pfx)
 			w.checkPrefixLogs(n, pfx)
 		}
@@ -1509,6 +1647,8 @@ func (w *world) stateDigest() uint64 {
 // settle: faults stop; the hub delivers everything (in canonical order), keeps ticking heartbeats and dead
 // checks, and time passes, until nothing changes any more. Then the fixed point is checked.
 func (w *world) settle() {
+	w.releaseGate("") // faults stop: no goroutine is held back any more
+	w.pump(2 * time.Millisecond)
 	c := w.sc.Config
 	capDeliveries := w.deliveries + 50000
 	quietRounds := 0
